@@ -191,6 +191,18 @@ def affine_eval(src, known, free=None):
                     raise ZeroDivisionError('division by zero')
                 return Affine(a.const // b.const if isinstance(node.op, ast.FloorDiv) else a.const % b.const)
             raise NotAffine('operator')
+        if isinstance(node, ast.Compare):
+            vals = [ev(node.left)] + [ev(c) for c in node.comparators]
+            if all(v.is_const() for v in vals):
+                import operator as _op
+                table = {ast.Lt: _op.lt, ast.LtE: _op.le, ast.Gt: _op.gt, ast.GtE: _op.ge, ast.Eq: _op.eq, ast.NotEq: _op.ne}
+                ok = True
+                for (x, y), o in zip(zip(vals, vals[1:]), node.ops):
+                    if type(o) not in table:
+                        raise NotAffine('comparison')
+                    ok = ok and table[type(o)](x.const, y.const)
+                return Affine(1 if ok else 0)
+            raise NotAffine('comparison')
         if isinstance(node, ast.Call) and isinstance(node.func, ast.Name) and not node.keywords:
             args = [ev(x) for x in node.args]
             if all(x.is_const() for x in args):
